@@ -1222,4 +1222,296 @@ Proof.
   intros. apply inv_run; [apply step_inv | apply init_inv].
 Qed.
 
+(* ------------------------------------------------------------------ *)
+(* C01 theorems                                                        *)
+(* ------------------------------------------------------------------ *)
+
+(* 1. what the consumer was handed is a prefix of what was queued for it *)
+Theorem delivered_prefix_of_pushed : forall pkts stoppers sched c,
+  let s := Run sched (Init pkts stoppers) in
+  let k := s_cs s c in
+  exists rest, c_pushed k = c_out k ++ rest.
+Proof.
+  intros pkts stoppers sched c s k.
+  pose proof (reachable_inv pkts stoppers sched) as HI. fold s in HI.
+  destruct (ki_q _ _ (i_ki _ _ HI c)) as [rest [Hq _]]. fold k in Hq.
+  exists (pend k ++ rest). exact Hq.
+Qed.
+
+(* 2. queued = snapshot at attach ++ the packets broadcast while registered, filtered by the
+   consumer's own keep/drop decisions *)
+Theorem pushed_is_prefill_then_selected_live : forall pkts stoppers sched c,
+  let s := Run sched (Init pkts stoppers) in
+  let k := s_cs s c in
+  c_pushed k = c_prefill k ++ select (c_keep k) (window (s_sent s) (c_regat k) (c_unregat k)) /\
+  length (c_keep k) = length (window (s_sent s) (c_regat k) (c_unregat k)).
+Proof.
+  intros pkts stoppers sched c s k.
+  pose proof (reachable_inv pkts stoppers sched) as HI. fold s in HI.
+  split; [apply (ki_w _ _ (i_ki _ _ HI c)) | apply (ki_len _ _ (i_ki _ _ HI c))].
+Qed.
+
+(* 2d. the sent log is a prefix of the publisher's input *)
+Theorem sent_prefix_of_published : forall pkts stoppers sched,
+  let s := Run sched (Init pkts stoppers) in
+  exists rest, pkts = s_sent s ++ rest.
+Proof.
+  intros pkts stoppers sched s.
+  pose proof (reachable_inv pkts stoppers sched) as HI. fold s in HI.
+  destruct (i_pre _ _ HI) as [dropped [Hp _]]. exists (dropped ++ s_todo s). exact Hp.
+Qed.
+
+Lemma live_out_prefix_of_selected : forall sent k, KI sent k ->
+  exists tail, select (c_keep k) (window sent (c_regat k) (c_unregat k)) = live_out k ++ tail.
+Proof.
+  intros sent k HK. destruct (ki_q _ _ HK) as [rest [Hq _]]. pose proof (ki_w _ _ HK) as Hw.
+  exists (skipn (length (c_prefill k) - length (c_out k)) (pend k ++ rest)).
+  unfold live_out. rewrite <- skipn_app, <- Hq, Hw, skipn_app, skipn_all, Nat.sub_diag. reflexivity.
+Qed.
+
+(* 2a. order: the live part of the delivered stream is a subsequence of the packets broadcast
+   while registered, hence of the sent log *)
+Theorem live_out_subseq_window : forall pkts stoppers sched c,
+  let s := Run sched (Init pkts stoppers) in
+  let k := s_cs s c in
+  subseq (live_out k) (window (s_sent s) (c_regat k) (c_unregat k)).
+Proof.
+  intros pkts stoppers sched c s k.
+  pose proof (reachable_inv pkts stoppers sched) as HI. fold s in HI.
+  destruct (live_out_prefix_of_selected _ _ (i_ki _ _ HI c)) as [tail Ht]. fold k in Ht.
+  eapply subseq_trans; [|apply subseq_select]. rewrite Ht. apply subseq_app_l.
+Qed.
+
+Theorem live_out_subseq_sent : forall pkts stoppers sched c,
+  let s := Run sched (Init pkts stoppers) in
+  let k := s_cs s c in
+  subseq (live_out k) (s_sent s).
+Proof.
+  intros pkts stoppers sched c s k.
+  eapply subseq_trans; [apply live_out_subseq_window | apply subseq_window].
+Qed.
+
+(* unmodified: every packet delivered from live broadcast is one of the publisher's packets *)
+Theorem live_out_unmodified : forall pkts stoppers sched c x,
+  let s := Run sched (Init pkts stoppers) in
+  In x (live_out (s_cs s c)) -> In x pkts.
+Proof.
+  intros pkts stoppers sched c x s Hin.
+  destruct (sent_prefix_of_published pkts stoppers sched) as [rest Hp]. fold s in Hp.
+  rewrite Hp. apply in_or_app. left.
+  eapply subseq_In; [apply live_out_subseq_sent | exact Hin].
+Qed.
+
+(* 2b. at most once *)
+Theorem live_out_at_most_once : forall pkts stoppers sched c,
+  let s := Run sched (Init pkts stoppers) in
+  let k := s_cs s c in
+  NoDup (map p_id pkts) -> NoDup (map p_id (live_out k)).
+Proof.
+  intros pkts stoppers sched c s k Hnd.
+  destruct (sent_prefix_of_published pkts stoppers sched) as [rest Hp]. fold s in Hp.
+  eapply subseq_NoDup; [|exact Hnd]. apply subseq_map.
+  eapply subseq_trans; [apply live_out_subseq_sent|]. fold s. rewrite Hp. apply subseq_app_l.
+Qed.
+
+(* 2c. completeness: nothing dropped for backlog => everything broadcast while registered was queued *)
+Theorem complete_when_nothing_dropped : forall pkts stoppers sched c,
+  let s := Run sched (Init pkts stoppers) in
+  let k := s_cs s c in
+  forallb (fun b => b) (c_keep k) = true ->
+  live_pushed k = window (s_sent s) (c_regat k) (c_unregat k) /\
+  c_pushed k = c_prefill k ++ window (s_sent s) (c_regat k) (c_unregat k).
+Proof.
+  intros pkts stoppers sched c s k Hall.
+  destruct (pushed_is_prefill_then_selected_live pkts stoppers sched c) as [Hw Hlen].
+  fold s in Hw, Hlen. fold k in Hw, Hlen.
+  rewrite (select_all_true _ _ _ Hlen Hall) in Hw.
+  split; [|exact Hw].
+  unfold live_pushed. rewrite Hw, skipn_app, skipn_all, Nat.sub_diag. reflexivity.
+Qed.
+
+(* 4. lock discipline: outside the publisher's critical section cached = sent *)
+Theorem sent_equals_cached_outside_section : forall pkts stoppers sched,
+  let s := Run sched (Init pkts stoppers) in
+  (s_pp s <> P2 -> s_cached s = s_sent s) /\
+  (s_pp s = P2 -> exists p rest, s_todo s = p :: rest /\ s_cached s = s_sent s ++ [p]).
+Proof.
+  intros pkts stoppers sched s.
+  pose proof (reachable_inv pkts stoppers sched) as HI. fold s in HI.
+  split; [apply (i_out _ _ HI) | apply (i_in _ _ HI)].
+Qed.
+
+(* ---- 3. non-interference ---- *)
+Lemma stop_other : forall (s : state) c' c s', c' <> c ->
+  step_stop fixed cache_t s c' = Some s' -> s_cs s' c = s_cs s c.
+Proof.
+  intros s c' c s' Hne Hstep. unfold step_stop in Hstep.
+  destruct (s_stp s c'); try discriminate.
+  - destruct (c_reg (s_cs s c')); injection Hstep as <-; simpl; [apply upd_other; exact Hne | reflexivity].
+  - injection Hstep as <-. simpl. apply upd_other. exact Hne.
+Qed.
+
+Lemma cons_other : forall (s : state) c' c s', c' <> c ->
+  step_cons fixed cache_t panic_at s c' = Some s' -> s_cs s' c = s_cs s c.
+Proof.
+  intros s c' c s' Hne Hstep. unfold step_cons in Hstep.
+  destruct (c_pc (s_cs s c')) as [| |x| | |]; try discriminate.
+  - destruct (c_q (s_cs s c')); injection Hstep as <-; simpl; apply upd_other; exact Hne.
+  - destruct x.
+    + destruct (Nat.eqb _ _); injection Hstep as <-; simpl; apply upd_other; exact Hne.
+    + injection Hstep as <-; simpl; apply upd_other; exact Hne.
+  - injection Hstep as <-; simpl; apply upd_other; exact Hne.
+Qed.
+
+Lemma cs_after_acquire : forall (s : state) h lq c, h <> HAtt c -> s_cs (AfterAcq s h lq) c = s_cs s c.
+Proof.
+  intros s h lq c Hne. unfold after_acquire. destruct h as [|c'].
+  - destruct (s_todo s); reflexivity.
+  - simpl. apply upd_other. congruence.
+Qed.
+
+Lemma cs_acquire : forall (s : state) h c, h <> HAtt c -> s_cs (Acquire s h) c = s_cs s c.
+Proof.
+  intros s h c Hne. unfold acquire. simpl (v_lock fixed). cbv iota.
+  destruct (s_lock s).
+  - destruct h; reflexivity.
+  - apply cs_after_acquire. exact Hne.
+Qed.
+
+Lemma cs_release : forall (s : state) c, hd_error (s_lockq s) <> Some (HAtt c) ->
+  s_cs (Release s) c = s_cs s c.
+Proof.
+  intros s c Hhd. unfold release. simpl (v_lock fixed). cbv iota.
+  destruct (s_lockq s) as [|h rest]; [reflexivity|].
+  apply cs_after_acquire. simpl in Hhd. congruence.
+Qed.
+
+Lemma att_other : forall (s : state) c' c s', c' <> c -> hd_error (s_lockq s) <> Some (HAtt c) ->
+  step_att fixed cache_t cache_add cache_snap s c' = Some s' -> s_cs s' c = s_cs s c.
+Proof.
+  intros s c' c s' Hne Hhd Hstep. unfold step_att in Hstep.
+  destruct (s_att s c'); try discriminate.
+  - injection Hstep as <-. apply cs_acquire. congruence.
+  - injection Hstep as <-. rewrite cs_release by exact Hhd. simpl. apply upd_other. exact Hne.
+  - destruct (v_recheck fixed && negb (s_ok s) && c_reg (s_cs s c')); injection Hstep as <-;
+      simpl; apply upd_other; exact Hne.
+Qed.
+
+(* Steps of another consumer's stopper and goroutine never touch consumer c (any state). *)
+Theorem noninterference_stop_cons : forall (s : state) c c' s',
+  c' <> c -> (Step s (TStop c') = Some s' \/ Step s (TCons c') = Some s') -> s_cs s' c = s_cs s c.
+Proof.
+  intros s c c' s' Hne [Hstep|Hstep]; simpl in Hstep; destruct (c' <? ncons); try discriminate.
+  - destruct (s_att s c'); try discriminate. eapply stop_other; eassumption.
+  - eapply cons_other; eassumption.
+Qed.
+
+(* The full statement "TAtt c' leaves s_cs s c unchanged" is FALSE in the model: when the attacher
+   c' leaves the join mutex and c is the first goroutine blocked in joinLock.Lock(), the hand-over
+   of the mutex runs c's own snapshot in the same atomic step (see [noninterference_handoff_witness]).
+   Strongest true variant: unchanged unless c itself is blocked in Lock() … *)
+Theorem noninterference_partial : forall pkts stoppers sched c c' s',
+  let s := Run sched (Init pkts stoppers) in
+  c' <> c -> s_att s c <> A0W ->
+  (Step s (TAtt c') = Some s' \/ Step s (TStop c') = Some s' \/ Step s (TCons c') = Some s') ->
+  s_cs s' c = s_cs s c.
+Proof.
+  intros pkts stoppers sched c c' s' s Hne Ha [Hstep|Hstep].
+  - pose proof (reachable_inv pkts stoppers sched) as HI. fold s in HI.
+    simpl in Hstep. destruct (c' <? ncons); try discriminate.
+    eapply att_other; try eassumption.
+    intro Hhd. apply Ha. apply (i_qatt _ _ HI c).
+    destruct (s_lockq s); [discriminate|]. injection Hhd as ->. left. reflexivity.
+  - eapply noninterference_stop_cons; eassumption.
+Qed.
+
+(* … and when it is, the only possible effect is c's own lock acquisition completing: c's entry
+   becomes the snapshot of the cache, exactly what its own attach step does when the mutex is free. *)
+Theorem noninterference_att_handoff : forall pkts stoppers sched c c' s',
+  let s := Run sched (Init pkts stoppers) in
+  c' <> c -> Step s (TAtt c') = Some s' ->
+  s_cs s' c = s_cs s c \/
+  (s_att s c = A0W /\ s_att s' c = A1 /\ s_cs s c = cons0 /\ s_cs s' c = fresh (cache_snap (s_cache s))).
+Proof.
+  intros pkts stoppers sched c c' s' s Hne Hstep.
+  pose proof (reachable_inv pkts stoppers sched) as HI. fold s in HI.
+  destruct (s_att s c) eqn:Ha;
+    try (left; eapply (noninterference_partial pkts stoppers sched c c' s' Hne);
+         [fold s; congruence | left; exact Hstep]).
+  pose proof (i_early _ _ HI c (or_intror Ha)) as Hk0.
+  simpl in Hstep. destruct (c' <? ncons); try discriminate.
+  unfold step_att in Hstep. destruct (s_att s c') eqn:Ha'; try discriminate.
+  - injection Hstep as <-. left. apply cs_acquire. congruence.
+  - injection Hstep as <-. unfold release. simpl (v_lock fixed). cbv iota.
+    simpl (s_lockq _). destruct (s_lockq s) as [|h rest] eqn:Hq.
+    + left. simpl. apply upd_other. exact Hne.
+    + destruct h as [|c''].
+      * left. rewrite cs_after_acquire by discriminate. simpl. apply upd_other. exact Hne.
+      * destruct (Nat.eq_dec c'' c) as [->|Hne''].
+        -- right. split; [reflexivity|]. unfold after_acquire. simpl.
+           rewrite !upd_same. rewrite (upd_other _ _ c' c) by exact Hne. rewrite Hk0.
+           repeat split; reflexivity.
+        -- left. rewrite cs_after_acquire by congruence. simpl. apply upd_other. exact Hne.
+  - left. destruct (v_recheck fixed && negb (s_ok s) && c_reg (s_cs s c')); injection Hstep as <-;
+      simpl; apply upd_other; exact Hne.
+Qed.
+
+(* the broadcast: what happens to c is a function of c's own entry and the packet *)
+Theorem publisher_effect_on_consumer : forall pkts stoppers sched c s',
+  let s := Run sched (Init pkts stoppers) in
+  let k := s_cs s c in
+  s_att s c <> A0W -> Step s TPub = Some s' ->
+  s_cs s' c = match s_pp s, s_todo s with
+              | P2, p :: _ => if c_reg k then send maxq k p else k
+              | _, _ => k
+              end.
+Proof.
+  intros pkts stoppers sched c s' s k Ha Hstep.
+  pose proof (reachable_inv pkts stoppers sched) as HI. fold s in HI.
+  assert (Hhd : hd_error (s_lockq s) <> Some (HAtt c)).
+  { intro Hhd. apply Ha. apply (i_qatt _ _ HI c).
+    destruct (s_lockq s); [discriminate|]. injection Hhd as ->. left. reflexivity. }
+  simpl in Hstep. unfold step_pub in Hstep.
+  destruct (s_pp s) eqn:Hpp; destruct (s_todo s) as [|p rest] eqn:Ht; try discriminate.
+  - destruct (s_ok s); injection Hstep as <-; reflexivity.
+  - injection Hstep as <-. apply cs_acquire. discriminate.
+  - injection Hstep as <-. rewrite cs_release by exact Hhd. simpl. rewrite send_all_spec. fold k.
+    destruct (c_reg k) eqn:Hreg; [|rewrite andb_false_r; reflexivity].
+    pose proof (reg_range _ _ _ HI Hreg) as Hc. apply Nat.ltb_lt in Hc. rewrite Hc. reflexivity.
+Qed.
+
+(* the closer: likewise a function of c's own entry *)
+Theorem closer_effect_on_consumer : forall (s : state) c s',
+  Step s TClose = Some s' ->
+  s_cs s' c = match s_kp s with
+              | K1 => if (c <? ncons) && c_reg (s_cs s c)
+                      then close_cons fixed (set_reg (s_cs s c) false (length (s_sent s))) else s_cs s c
+              | _ => s_cs s c
+              end.
+Proof.
+  intros s c s' Hstep. simpl in Hstep. unfold step_close in Hstep.
+  destruct (s_kp s); try discriminate.
+  - injection Hstep as <-. reflexivity.
+  - pose proof (sweep_spec ncons (s_cs s) (length (s_sent s)) c) as Hsw.
+    destruct (sweep fixed ncons (s_cs s) (length (s_sent s))) as [f d].
+    simpl (v_atomic fixed) in Hstep. cbv iota in Hstep. injection Hstep as <-. exact Hsw.
+  - injection Hstep as <-. reflexivity.
+Qed.
+
 End Fanout.
+
+(* send's decision for a consumer depends only on its own queue length, its own discarding flag
+   and the packet *)
+Theorem send_decision_is_local : forall maxq k p,
+  let d := send_drop maxq (length (c_q k)) (c_disc k) p in
+  c_disc (send maxq k p) = d /\
+  c_keep (send maxq k p) = c_keep k ++ [negb d] /\
+  c_pushed (send maxq k p) = c_pushed k ++ (if d then [] else [p]) /\
+  c_out (send maxq k p) = c_out k /\ c_prefill (send maxq k p) = c_prefill k /\
+  c_reg (send maxq k p) = c_reg k /\ c_regat (send maxq k p) = c_regat k /\
+  c_unregat (send maxq k p) = c_unregat k.
+Proof.
+  intros maxq k p d. unfold d.
+  rewrite send_disc, send_keep, send_pushed, send_out, send_prefill, send_reg, send_regat, send_unregat.
+  repeat split; reflexivity.
+Qed.
